@@ -706,7 +706,12 @@ func genC05Filter(c *ctx) {
 				b[len(b)-1] = '.'
 			}
 		}
-		files, hasDir, ignore, win := trzsz.VerifDetectDragFiles(b)
+		var files []string
+		var hasDir, ignore, win bool
+		if pt := c05Catch(func() { files, hasDir, ignore, win = trzsz.VerifDetectDragFiles(b) }); pt != "" {
+			c.violate("scanner-panic:drag:"+hx(b), "detectDragFiles panics on typed input (it runs in the input pump: the process dies)", fmt.Sprintf("detectDragFiles(%q): %s", b, pt))
+			continue
+		}
 		if files != nil && kindOfInput != 0 {
 			// DIRECT ORACLE: typed input that is not entirely a list of existing files/directories
 			c.violate("drag-false-positive", "typed input that is not entirely a list of existing regular files / directories would be swallowed as a drag upload",
@@ -729,17 +734,99 @@ func genC05Filter(c *ctx) {
 		if c.rng.Intn(2) == 0 {
 			e = c05Random(c.rng)
 		}
-		c.emit(bytes.IndexByte(e, 0x1b) >= 0, "c05_trim", hx([]byte(strings.TrimRight(string(trzsz.VerifTrimVT100(e)), "\r\n"))), hx(e))
+		var trimmed []byte
+		if pt := c05Catch(func() { trimmed = trzsz.VerifTrimVT100(e) }); pt != "" {
+			c.violate("scanner-panic:trimvt100:"+hx(e), "trimVT100 panics on server output (it runs in the output pump: the process dies)", fmt.Sprintf("trimVT100(%q): %s", e, pt))
+			continue
+		}
+		c.emit(bytes.IndexByte(e, 0x1b) >= 0, "c05_trim", hx([]byte(strings.TrimRight(string(trimmed), "\r\n"))), hx(e))
+	}
+
+	// (4b) every prefix and every suffix of drag lists through detectDragFiles (index errors)
+	for k := 0; k < c.pick(6, 30); k++ {
+		whole, _ := paths.aDrag(c.rng)
+		for cut := 0; cut <= len(whole); cut++ {
+			for _, b := range [][]byte{whole[:cut], whole[cut:]} {
+				if len(b) == 0 {
+					continue
+				}
+				b := b
+				var files []string
+				var hasDir, ignore, win bool
+				if pt := c05Catch(func() { files, hasDir, ignore, win = trzsz.VerifDetectDragFiles(b) }); pt != "" {
+					c.violate("scanner-panic:drag:"+hx(b), "detectDragFiles panics on typed input (it runs in the input pump: the process dies)", fmt.Sprintf("detectDragFiles(%q): %s", b, pt))
+					continue
+				}
+				res := "none"
+				if files != nil {
+					var fs [][]byte
+					for _, f := range files {
+						fs = append(fs, []byte(f))
+					}
+					res = "files:" + hxs(fs) + ":" + map[bool]string{true: "1", false: "0"}[hasDir]
+				}
+				res += ":" + map[bool]string{true: "1", false: "0"}[ignore] + ":" + map[bool]string{true: "1", false: "0"}[win]
+				c.emit(true, "c05_drag", res, table, hx(b))
+				c.count("drag:cut-sweep")
+			}
+		}
+	}
+
+	// (4c) OSC52: EVERY 2-chunk and 3-chunk split of complete sequences, fed to the real scanner
+	// (filter.detectOSC52 called directly, under recover) and to the model
+	oscSeqs := []string{
+		"\x1b]52;c;QUJD\a",
+		"\x1b]52;p;QUJD\x1b\\",
+		"\x1b]52;x;QUJD\a",
+		"\x1b]52;c;\a",
+		"\x1b]52;c;\x1b\\",
+		"ab\x1b]52;q;\x1b]52;c;QQ==\acd",
+		"\x1b]52;c;QUJD\a\x1b]52;p;RUZH\x1b\\",
+		"\x1b]52;\x1b]52;c;QQ==\a",
+		"\x1b]52;c\x1b]52;p;Qg==\a",
+		"\x1b]52;cc;Qg==\a\x1b]52;c;;\a",
+	}
+	oscCase := func(desc string, chunks [][]byte) {
+		var clips [][]byte
+		var pending []byte
+		var has bool
+		at, ptxt := -1, ""
+		if pt := c05Catch(func() { clips, pending, has, at, ptxt = trzsz.VerifOSC52Scan(chunks) }); pt != "" {
+			at, ptxt = 0, pt
+		}
+		if at >= 0 {
+			c.violate("scanner-panic:osc52:"+desc, "detectOSC52 panics on server output (it runs in the output pump goroutine: the whole process dies)",
+				fmt.Sprintf("chunks %s: panic on chunk %d (%q): %s", hxs(chunks), at, chunks[at], ptxt))
+			c.emit(true, "c05_osc52", "panic", hxs(chunks))
+			return
+		}
+		res := "n"
+		if has {
+			res = "b" + hx(pending)
+		}
+		c.emit(len(chunks) > 1, "c05_osc52", res+"|"+hxs(clips), hxs(chunks))
+		c.count(fmt.Sprintf("osc52-sweep:%d-chunks", len(chunks)))
+	}
+	for si, sq := range oscSeqs {
+		b := []byte(sq)
+		oscCase(fmt.Sprintf("seq%d:whole", si), [][]byte{b})
+		for i := 1; i < len(b); i++ {
+			oscCase(fmt.Sprintf("seq%d:cut@%d", si, i), [][]byte{b[:i], b[i:]})
+			for j := i + 1; j < len(b); j++ {
+				oscCase(fmt.Sprintf("seq%d:cut@%d,%d", si, i, j), [][]byte{b[:i], b[i:j], b[j:]})
+			}
+		}
 	}
 
 	// (5) the documented exception on the input side: a list of EXISTING paths is swallowed
 	// and starts a drag upload (ctrl-C, 200 ms during which server output is dropped, the
 	// upload command, suppression of its echo).  A few, in parallel (they sleep).
-	nDrag := c.pick(6, 24)
+	nDrag := c.pick(10, 30)
 	type dragOut struct {
 		args   []string
 		result string
 		viol   string
+		key    string
 	}
 	outs := make([]dragOut, nDrag)
 	seeds := make([]int64, nDrag)
@@ -767,7 +854,7 @@ func genC05Filter(c *ctx) {
 		feedIn([]byte("echo before\r"))
 		feedOut([]byte("before\r\n$ "))
 		list, hasDir := paths.aDrag(rng)
-		variant := i % 4
+		variant := i % 5
 		feedIn(list)
 		if variant == 3 {
 			// the user types something else before the upload starts: the drag is abandoned
@@ -799,12 +886,47 @@ func genC05Filter(c *ctx) {
 				outs[i].viol = "the drag upload never typed the upload command " + full
 			}
 			toks = append(toks, "g0")
-			if variant == 1 {
+			if variant == 4 {
+				// the echo of the command does NOT arrive as a chunk of its own: it is glued to what
+				// follows.  That chunk is not the bare echo, so it passes, and the suppression is spent.
+				// Everything the remote side sends afterwards must reach the terminal - also chunks
+				// that look like the echo.
+				word := strings.Fields(full)[0]
+				after := [][]byte{
+					[]byte(full + "\r\n-bash: " + word + ": command not found\r\n$ "),
+					[]byte("$ echo " + full + "\r\n"),
+					[]byte(full + "\r\n"),
+					[]byte("\x1b[0m" + full + "\x1b[K\r\n"),
+					[]byte(full),
+					[]byte(full + "\r"),
+					[]byte(full + "\n\r\n"),
+					[]byte(full + " \r\n"),
+					[]byte(" " + full + "\r\n"),
+					[]byte(full[:len(full)-1] + "\r\n"),
+					[]byte(full + "x\r\n"),
+					[]byte("\x1b" + full + "\r\n"),
+					[]byte("$ "),
+				}
+				for k, b := range after {
+					if k == 2 {
+						feedIn([]byte("ls\r")) // the user carries on
+					}
+					at := x.rec.length()
+					feedOut(b)
+					if got := x.rec.snapshot()[at:]; !c05Only(got, 't', b) && outs[i].viol == "" {
+						outs[i].key = "idle-output-altered:after-drag"
+						outs[i].viol = fmt.Sprintf("after a drag upload whose command echo arrived glued to other output (%q), the remote output %q reached the terminal as %v",
+							after[0], b, got)
+					}
+				}
+			} else if variant == 1 {
 				feedOut([]byte("\x1b[?2004l\x1b[1m" + full + "\x1b[0m\r\n")) // echo, decorated
 			} else {
 				feedOut([]byte(full + "\r\n"))
 			}
-			feedOut([]byte(full + "\r\n")) // a second identical chunk is NOT suppressed
+			if variant != 4 {
+				feedOut([]byte(full + "\r\n")) // a second identical chunk is NOT suppressed
+			}
 			// DIRECT ORACLE: once ctrl-C, the command and its echo are through, output passes again
 			mark := []byte(fmt.Sprintf("after-drag-%d\r\n$ ", i))
 			at := x.rec.length()
@@ -822,9 +944,24 @@ func genC05Filter(c *ctx) {
 		c.emit(true, "c05_run", outs[i].result, outs[i].args...)
 		c.count("case:drag-exception")
 		if outs[i].viol != "" {
-			c.violate("drag-upload", outs[i].viol, strings.Join(outs[i].args, " "))
+			key := outs[i].key
+			if key == "" {
+				key = "drag-upload"
+			}
+			c.violate(key, outs[i].viol, strings.Join(outs[i].args, " "))
 		}
 	}
+}
+
+// c05Catch runs f in this goroutine and returns the panic text ("" = no panic)
+func c05Catch(f func()) (p string) {
+	defer func() {
+		if r := recover(); r != nil {
+			p = fmt.Sprint(r)
+		}
+	}()
+	f()
+	return ""
 }
 
 type c05Ev struct {
